@@ -1,7 +1,7 @@
 (* C17 tie, part C: traced speckle_contrast and phase_gradient (window formulas and the final loss) against
    the reference model, for all reals. *)
 From Coq Require Import Reals Lra List.
-From OdakV Require Import Base.RealAux C17.Model C17.Lemmas.
+From OdakV Require Import Base.RealAux C17.Model C17.Lemmas C17.TieTac.
 From Run Require Import GenC17.
 Import ListNotations.
 Open Scope R_scope.
@@ -55,11 +55,11 @@ Definition windows : list (list R) :=
     [0; i00; i01; 0; i10; i11; 0; i20; i21]; [i00; i01; i02; i10; i11; i12; i20; i21; i22]; [i01; i02; 0; i11; i12; 0; i21; i22; 0];
     [0; i10; i11; 0; i20; i21; 0; 0; 0]; [i10; i11; i12; i20; i21; i22; 0; 0; 0]; [i11; i12; 0; i21; i22; 0; 0; 0; 0] ].
 Lemma pg_centre_model : pg_1_1 i00 i01 i02 i10 i11 i12 i20 i21 i22 = dotp lap [i00; i01; i02; i10; i11; i12; i20; i21; i22].
-Proof. unfold pg_1_1, lap. simpl. field. Qed.
+Proof. unfold pg_1_1, lap. simpl. sem. Qed.
 Lemma pg_corner_model : pg_0_0 i00 i01 i02 i10 i11 i12 i20 i21 i22 = dotp lap [0; 0; 0; 0; i00; i01; 0; i10; i11].
-Proof. unfold pg_0_0, lap. simpl. field. Qed.
+Proof. unfold pg_0_0, lap. simpl. sem. Qed.
 Lemma pg_loss_model : pg_loss_t i00 i01 i02 i10 i11 i12 i20 i21 i22 = pg_loss lap windows.
-Proof. unfold pg_loss_t, pg_loss, windows, lap, mse, rmean, sqd. simpl. field. Qed.
+Proof. unfold pg_loss_t, pg_loss, windows, lap, mse, rmean, sqd. simpl. sem. Qed.
 Theorem traced_phase_gradient_nonneg : 0 <= pg_loss_t i00 i01 i02 i10 i11 i12 i20 i21 i22.
 Proof. rewrite pg_loss_model. apply pg_nonneg. Qed.
 End Phase.
